@@ -1,6 +1,7 @@
-(* Correspondence of Context.Ln / Log10 with the model on the power-series path (Model/Ln.v). *)
+(* Correspondence of Context.Ln / Log10 with the model: power-series path (Model/Ln.v) and Halley's iteration given its
+   float-derived inputs (Model/LnHalley.v). *)
 From Coq Require Import List.
-From Apd Require Import Generated.Consts Model.Base Model.NumDigits Model.Decimal Model.Context Model.Roots Model.Ln Oracle.Judge.
+From Apd Require Import Generated.Consts Model.Base Model.NumDigits Model.Decimal Model.Context Model.Roots Model.Ln Model.LnHalley Oracle.Judge.
 Import ListNotations.
 Open Scope Z_scope.
 
@@ -21,3 +22,24 @@ Definition corr_ln (t1 t2 : list (Z * Z)) (is_log10 : bool) (c : ctx) (x : dec) 
   end.
 Definition ln_modelled (t1 t2 : list (Z * Z)) (is_log10 : bool) (c : ctx) (x : dec) : bool :=
   match (if is_log10 then ctx_log10_series go_est t1 t2 c x else ctx_ln_series go_est t1 c x) with Ok None => false | _ => true end.
+
+(* the full model: a0 and exps are the float-derived inputs of Halley's iteration (ignored on the series path) *)
+Definition ln_full (t1 t2 : list (Z * Z)) (is_log10 : bool) (a0 : dec) (exps : list (Z * Z)) (c : ctx) (x : dec) : res (option result) :=
+  if is_log10 then ctx_log10_full go_est t1 t2 a0 exps c x else ctx_ln_full go_est t1 a0 exps c x.
+Definition corr_ln_full (t1 t2 : list (Z * Z)) (is_log10 : bool) (a0 : dec) (exps : list (Z * Z)) (c : ctx) (x : dec) (o : obs) : list Z :=
+  match ln_full t1 t2 is_log10 a0 exps c x with
+  | Ok (Some r) =>
+      flag (err_eqb (rerr r) (o_err o)) K_ERR
+      ++ (if system_err (rerr r) then []
+          else flag (cond_eqb (rcond r) (o_cond o)) K_COND
+               ++ match rdec r with
+                  | Some d => flag (if is_finite d then dec_eqb d (o_dec o) else same_value d (o_dec o)) K_DEST_REPR
+                  | None => []
+                  end)
+  | Ok None => []
+  | _ => [K_MODEL_PANIC]
+  end.
+(* 0: not followed by the model; 1: series path (or a special value); 2: Halley's iteration *)
+Definition ln_path (t1 t2 : list (Z * Z)) (is_log10 : bool) (a0 : dec) (exps : list (Z * Z)) (c : ctx) (x : dec) : Z :=
+  if ln_modelled t1 t2 is_log10 c x then 1 else
+  match ln_full t1 t2 is_log10 a0 exps c x with Ok None => 0 | _ => 2 end.
